@@ -301,6 +301,13 @@ func (c *Context) HandleEnvelop(envelop vivid.Envelop) {
 	// - 普通消息一律推入死信队列
 	// - 系统消息在 killing 阶段仍需要处理（例如子 Actor 的 OnKilled 事件），否则终止流程无法闭环
 	currentState := atomic.LoadInt32(&c.state)
+	// 重启过程中（已进入 killing 并等待子 Actor 结束）收到终止消息：取消重启，使本次终止流程以真正终止收尾。
+	// 否则该消息会被忽略（系统消息）或进入死信（毒杀消息），Actor 重启后继续运行，
+	// 而等待其终止的一方（例如正在停止的父级）将永远等待
+	if _, isKill := envelop.Message().(*vivid.OnKill); isKill && currentState == killing && c.restarting != nil && !c.zombie {
+		c.restarting = nil
+		return
+	}
 	killingOrKilled := (currentState == killed) || (!envelop.System() && currentState != running) // 是否处于停止中或死亡状态
 	if killingOrKilled && !c.zombie {                                                             // 是否处于僵尸状态
 		// 根 Actor 已停止（或正在停止）时，投递给它的死信事件本身又会成为死信，
